@@ -827,7 +827,7 @@ func (j *judgeCtx) ackBeforeBarrier(c *Call) {
 		return
 	}
 	for _, s := range j.wd.subs {
-		if s.ad == nil || len(s.Exits) == 0 || s.Exits[len(s.Exits)-1] > c.Ret || s.AddRet == 0 || s.AddRet >= c.Inv {
+		if s.ad == nil || len(s.Exits) == 0 || s.Exits[len(s.Exits)-1] > c.Ret || len(s.Entries) == 0 || s.Entries[len(s.Entries)-1] >= c.Inv {
 			continue
 		}
 		first := uint64(0)
